@@ -475,8 +475,11 @@ def term_calls(t, acc=None):
 
 def term_mentions(t, pred):
     if isinstance(t, tuple):
-        if pred(t):
-            return True
+        try:
+            if t and isinstance(t[0], str) and pred(t):
+                return True
+        except (IndexError, TypeError):
+            pass
         return any(term_mentions(x, pred) for x in t if isinstance(x, tuple))
     return False
 
